@@ -1,14 +1,14 @@
 \* C15 quick: automata check: path strings of <= 6 characters over {a, 1, _, :, -}, level strings of
-\* <= 4 characters over {d, e, b, g, u, D, 3, space, tab, é}; cases: all strings of <= 3 characters over
-\* 17 character classes, <= 4 over the level alphabet, <= 5 over the path alphabet, near-misses of 25
-\* well-formed texts, level words x prefixes x cases x suffixes, 11 boundary years x month ends x 11 precisions.
+\* <= 4 characters over {d, e, b, g, u, D, 3, space, tab, line feed, é}; cases: all strings of <= 3 characters over
+\* 18 character classes, <= 4 over the level alphabet (with line feed and NBSP), <= 5 over the path alphabet, near-misses of 25
+\* well-formed texts, level words x prefixes x cases x suffixes, level and kind words x 7 white-space classes on either side, 11 boundary years x month ends x 11 precisions.
 \* byte-length-preserving multi-byte substitutions (14 non-ASCII representatives incl. Latin-1 high-bit aliases) of 12 fixed-width texts.
 SPECIFICATION Spec
 CONSTANTS
     PathAlgo = "repaired"
     PathChars = {"a", "1", "_", ":", "-"}
     PathMaxLen = 6
-    LevelChars = {"d", "e", "b", "g", "u", "D", "3", " ", "\t", "é"}
+    LevelChars = {"d", "e", "b", "g", "u", "D", "3", " ", "\t", "\n", "é"}
     LevelMaxLen = 4
     Tier = "quick"
     Emit = TRUE
